@@ -5,7 +5,7 @@ Line kinds: T micro-state after an applied transition, S state at return, O offe
 flags, V observation, F env flags, R reward, L lower bound / max time, X error class, E end.
 """
 
-CORE = "TSOAXE"
+CORE = "GTSOAXE"
 
 PROPS = {
     "C01": dict(families=["ordered", "classic", "transport", "buffers", "setup", "outage", "stoch", "mixed"], kinds=CORE),
@@ -21,12 +21,12 @@ PROPS = {
     "C11": dict(families=["ordered", "transport", "buffers", "mixed", "classic"], kinds=CORE),
     "C12": dict(families=["ordered", "shifted", "transport", "outage", "mixed", "classic"], kinds=CORE),
     "C13": dict(families=["classic", "stoch", "mixed", "buffers"], kinds=CORE + "VFRL"),
-    "C14": dict(families=["classic", "transport", "bigids", "mixed", "shifted"], kinds="SOAVFXE"),
-    "C15": dict(families=["classic", "transport", "bigids", "mixed"], kinds="SOAVXE"),
+    "C14": dict(families=["classic", "transport", "bigids", "mixed", "shifted"], kinds="GSOAVFXE"),
+    "C15": dict(families=["classic", "transport", "bigids", "mixed"], kinds="GSOAVXE"),
     "C16": dict(families=["classic", "transport", "buffers", "setup", "outage", "stoch", "mixed"], kinds=""),
     "C17": dict(families=["classic", "transport", "buffers", "setup", "outage", "mixed"], kinds=""),
     "C18": dict(families=["classic", "transport", "mixed", "buffers"], kinds=CORE + "F"),
-    "C19": dict(families=["classic", "transport", "mixed", "shifted"], kinds="SOAFRLXE"),
+    "C19": dict(families=["classic", "transport", "mixed", "shifted"], kinds="GSOAFRLXE"),
     "C20": dict(families=["classic", "transport", "buffers", "stoch", "mixed"], kinds=CORE + "F"),
 }
 
